@@ -32,7 +32,7 @@ TOL = 1e-6
 
 def run(ctx: Ctx) -> None:
     n = 160 if ctx.quick else 20000
-    interpolated_pairs(ctx, 30 if ctx.quick else 8000)
+    interpolated_pairs(ctx, 50 if ctx.quick else 8000)
     for idx in ctx.indices("pairs", n):
         r = ctx.rng("pairs", idx)
         task = ["detection", "tracking", "detection", "fp_validation"][idx % 4]
@@ -130,7 +130,8 @@ def interpolated_pairs(ctx: Ctx, n: int) -> None:
     for idx in ctx.indices("interpolated", n):
         r = ctx.rng("interpolated", idx)
         task = ["detection", "tracking"][idx % 2]
-        scn = gen_scenario(r, task=task, n_frames=r.randint(2, 4), fp_share=r.choice([0.0, 0.15]))
+        # (a fast, turning ego: the ego pose at the query time differs clearly from the poses of both neighbours)
+        scn = gen_scenario(r, task=task, n_frames=r.randint(2, 4), fp_share=r.choice([0.0, 0.15]), fast_ego=idx % 2 == 0)
         ctx.begin_case("interpolated", idx, **scn.info)
         with ctx.case_guard("interpolated"):
             with D.DatasetDir(scn.scene_spec()) as ds:
